@@ -21,6 +21,7 @@ pub enum ParserError {
     InvalidPictureSize,
 
     InvalidRipAnsiQuery(i32),
+    MacroNestingTooDeep(usize),
 
     Error(String),
 }
@@ -64,6 +65,7 @@ impl std::fmt::Display for ParserError {
             ParserError::ErrorInSixelEngine(err) => write!(f, "sixel engine error: {err}"),
             ParserError::InvalidPictureSize => write!(f, "invalid sixel picture size description"),
             ParserError::InvalidRipAnsiQuery(i) => write!(f, "invalid rip ansi query <esc>[{i}!"),
+            ParserError::MacroNestingTooDeep(limit) => write!(f, "macro invocations nested deeper than {limit}"),
             ParserError::Error(err) => write!(f, "Parse error: {err}"),
         }
     }
